@@ -106,6 +106,21 @@ def run(chk):
             only_managed_reads(chk, "R-MEASURE", r, c)
             if imk == "arias":
                 check_result(chk, r, c, se, measure_tags=["quad:trapezoid", "attr:_values"])
+                if se:
+                    # the positions found in the default measure are turned into times as index * dt: entry i of the series searched must be the
+                    # measure at sample i, i.e. the series has one entry per sample of the record.  A series of another definite length (the
+                    # leading zero dropped: n-1 entries) with the position still multiplied by dt unshifted reports every time one step early
+                    cm = [e for e in r.events("compare") if e.fn.startswith("eqsig.im.") and (("p:start" in e.left.tags) != ("p:start" in e.right.tags))]
+                    rets_ = r.returns()
+                    s_ = item(rets_[0], 0) if len(rets_) == 1 else None
+                    for e in cm[:1]:
+                        m = e.right if "p:start" in e.left.tags else e.left
+                        ln = m.length() if m.kind == K_ARRAY else None
+                        okl = ln is not None and ln == LinExpr("n")
+                        direct = s_ is not None and s_.ext is not None and s_.ext[0] == "lo"
+                        chk.ob("R-ENDS", c + "{sample-aligned}", "the default measure searched has one entry per sample (position i <-> time i*dt)", okl,
+                               derived="length %r; start read off the positions unshifted: %s" % (ln, direct), loc=e.loc, stmt=e.stmt,
+                               inconclusive=(not okl) and (ln is None or not direct))
             else:
                 check_result(chk, r, c, se, measure_tags=["user-im"], atom=F, not_tags=["quad:trapezoid"])
     # ------------------------------------------------------------ the supplied measure is the one searched, on a record used before
